@@ -13,6 +13,11 @@
     The affine of an image is its "best affine"; on the correspondence domain (images created with
     [nb.Nifti1Image(data, affine)], entries exactly representable in float32) it equals [img.affine].
 
+    Rationals: a float has ONE representation, a rational many; the column that [from_sequence] computes
+    ([trans_1 - trans_0]) is therefore stored reduced ([Qred]), so that on inputs whose entries are reduced
+    fractions (every literal printed from a float is) "the same number" is Leibniz equality and the image half
+    composes with the extension theorems (which take the affine as an argument).
+
     Floating point: all arithmetic is exact in Q.  The two [sqrt] normalisations of [from_sequence] are the
     Section variable [unitv]; nothing is assumed about it HERE (the theorems state, per vector, what they need:
     [Wrapper.Spec.unit_ok]).  The executable instance with exact rational square roots is [Wrapper.Corr.unit_exact].
@@ -189,7 +194,7 @@ Section WithUnit.
         do _ <- check_inputs dim A0 (sel_axes 0 dim rsh rsh) None ims;
         do A <- (if dim <? 3 then
                    match ims with
-                   | _ :: im1 :: _ => Ok (set_col3 A0 dim (vsub (trans_of (iaff im1)) (trans_of A0)))
+                   | _ :: im1 :: _ => Ok (set_col3 A0 dim (map Qred (vsub (trans_of (iaff im1)) (trans_of A0))))
                    | _ => Err EIndex                         (* seq[1] *)
                    end
                  else Ok A0);
